@@ -1,6 +1,6 @@
 """C04 — re-key / move / clone carry everything and never clobber (E2: real Job/Project code on MemFS next to a plain model;
 symbolic: old state point, edit route and value, destination state, handle provenance, sibling kind, payload)."""
-import copy
+import copy, json
 from vflib import memfs, refs, ws
 from vflib.hutil import pick, reached, part_ok, kf_filter, spy, tier, fresh_path, nt, ci, cb
 import signac.job as J
@@ -263,7 +263,7 @@ def h_move_clone(bi: int, kind: int, src_init: bool, dst_state: int, payload: in
     assert r[0]
 
 
-TYPED = [0, 1, 2, None, "a", 1.5, [0], {"c": 0}, {"d": 1}, {"c": 0, "d": 1}]   # the last two: mappings that share no / one sub-key with {"c": 0}
+TYPED = [0, 1, 2, None, "a", 1.5, [0], {"c": 0}, {"d": 1}, {"c": 0, "d": 1}, 1.0, True]   # 8, 9: mappings that share no / one sub-key with {"c": 0}; 10, 11: ==-equal to 1 but another JSON type
 
 
 def _update_case(i0, i1, extra, overwrite):
@@ -278,6 +278,19 @@ def _update_case(i0, i1, extra, overwrite):
         s.add_job("/p", base, doc={"k": 1}, files={"f": b"F"})
         before = s.fs.snapshot("/p/workspace")
         s.open(0, "/p", base)
+        if v0 == v1 and not refs.same_json(v0, v1):
+            # ==-equal values of different JSON type: without overwrite the existing key's value must not be altered (no effect at all);
+            # with overwrite the current code keeps the old value too (an observation outside the property, DESIGN 6.4): not judged
+            if overwrite:
+                return True, []
+            try:
+                s.handles[0].jobs[0].update_statepoint(copy.deepcopy(upd), overwrite=False)
+            except KeyError:
+                pass
+            job_ = s.handles[0].jobs[0]
+            raw = s.fs.get(job_.path + "/signac_statepoint.json")
+            same_a = raw is not None and refs.same_json(json.loads(raw)["a"], v0) and refs.same_json(job_.statepoint()["a"], v0)
+            return same_a, [("update_statepoint without overwrite altered an existing key's value (type)", raw)]
         ok = s.apply(0, "sp_update", upd, overwrite)
         differs = not refs.same_json(v0, v1)
         if differs and not overwrite:
@@ -296,10 +309,10 @@ def collection_to_none(i0, i1, overwrite):
 
 
 def h_update_sp(i0: int, i1: int, extra: bool, overwrite: bool):
-    assert 0 <= i0 < 10 and 0 <= i1 < 10
+    assert 0 <= i0 < 12 and 0 <= i1 < 12
     assert kf_filter("C04.collection_to_none", collection_to_none(i0, i1, overwrite))
     fresh_path()
-    i0, i1, extra, overwrite = ci(i0, 0, 9), ci(i1, 0, 9), cb(extra), cb(overwrite)
+    i0, i1, extra, overwrite = ci(i0, 0, 11), ci(i1, 0, 11), cb(extra), cb(overwrite)
     with nt():
         r = _update_case(i0, i1, extra, overwrite)
     reached()
